@@ -104,7 +104,7 @@ def _short(e):
 def r_cli_case_insensitive(r, prog):
     """--allow is declared ignore_case: the comparison with the lint code / 'All' must ignore case."""
     upd = prog.fn('slicec::diagnostics::diagnostic::Diagnostics::into_updated')
-    fns = [f for f in prog.fns.values() if f.path.startswith(upd.path)]
+    fns = [f for f in prog.fns.values() if f.path.startswith(upd.path) or re.sub(r'(::\{closure#\d+\})+$', '', f.path) in _upd_family(prog)]
     cmp_exact = []
     cmp_ci = []
     # a function together with its closures is one unit: the code may be fetched outside the closure that compares it
@@ -135,6 +135,31 @@ def r_cli_case_insensitive(r, prog):
     r.floor(1)
 
 
+def _upd_family(prog):
+    """into_updated, the functions nested in it, and the private functions of its module that are called from nowhere else (helpers hoisted
+    out of it): paths of the functions (closures belong to their function)"""
+    if getattr(prog, '_c13_family', None):
+        return prog._c13_family
+    upd = 'slicec::diagnostics::diagnostic::Diagnostics::into_updated'
+    MOD = 'slicec::diagnostics::diagnostic::'
+    root = lambda p: re.sub(r'(::\{closure#\d+\})+$', '', p)
+    fam = {p for p in prog.fns if root(p) == upd or root(p).startswith(upd + '::')}
+    fam = {root(p) for p in fam}
+    grew = True
+    while grew:
+        grew = False
+        for p, f in prog.fns.items():
+            rp = root(p)
+            if rp in fam or not rp.startswith(MOD) or '{closure' in rp or f.vis == 'pub' or rp.count('::') != MOD.count('::'):
+                continue
+            callers = {root(c.fn.path) for c in prog.callers_of(rp)}
+            if callers and callers <= fam:
+                fam.add(rp)
+                grew = True
+    prog._c13_family = fam
+    return fam
+
+
 def r_non_interference(r, prog):
     ALLOW = 'slicec::grammar::attributes::allow::Allow'
     upd = 'slicec::diagnostics::diagnostic::Diagnostics::into_updated'
@@ -146,7 +171,7 @@ def r_non_interference(r, prog):
         for c in f.calls():
             if c.name() in ('downcast', 'find_attribute', 'has_attribute') and any(ALLOW in t for t in c.targs):
                 n += 1
-                if f.path.startswith(ok_readers):
+                if f.path.startswith(ok_readers) or re.sub(r'(::\{closure#\d+\})+$', '', f.path) in _upd_family(prog):
                     r.ok('Allow consulted in %s' % f.path)
                 else:
                     r.finding('allow-consulted-in:%s' % f.path, c.span, '%s looks for the allow attribute: a suppression could change more than diagnostic levels' % f.path)
@@ -155,7 +180,7 @@ def r_non_interference(r, prog):
         if a['kind'] == 'init' or (f.impl_trait or '').startswith('core::fmt'):
             continue
         n += 1
-        if f.path.startswith(ok_readers):
+        if f.path.startswith(ok_readers) or re.sub(r'(::\{closure#\d+\})+$', '', f.path) in _upd_family(prog):
             r.ok('Allow.allowed_lints accessed in %s' % f.path)
         else:
             r.finding('allowed-lints-read-in:%s' % f.path, a['span'], 'Allow::allowed_lints is accessed in %s' % f.path)
